@@ -450,9 +450,19 @@ pub fn gen_proxy(seed: u64, prop: &str, tier: &str) -> Value {
             }
             _ => gen_doc(&mut r, &procs, &o, ph),
         };
+        let key_faults = prop == "C01" && !conc_transition && r.chance(1, 4);
+        let mut key_faults_persistent = false;
+        if key_faults {
+            key_faults_persistent = gen_key_negotiation_faults(&mut r, &mut steps);
+        }
         steps.push(json!({"t": "doc", "doc": doc}));
         if !(conc_transition && ph > 0) {
             steps.push(json!({"t": "wait_polls", "n": 2, "max_s": 200}));
+        }
+        if key_faults && !key_faults_persistent {
+            // the agent got through in the meantime
+            steps.push(json!({"t": "drain_faults", "max_s": 120}));
+            steps.push(json!({"t": "wait_polls", "n": 1, "max_s": 200}));
         }
         let nconn = 1 + r.below(if tier == "thorough" { 6 } else { 4 });
         let mut conns = Vec::new();
@@ -499,6 +509,9 @@ pub fn gen_proxy(seed: u64, prop: &str, tier: &str) -> Value {
         }
         if upstream_faults {
             steps.push(json!({"t": "clear_faults"}));
+        }
+        if key_faults_persistent {
+            steps.push(json!({"t": "clear_faults", "all": true}));
         }
     }
     if prop == "C01" && r.chance(1, 5) {
@@ -717,6 +730,26 @@ fn gen_policy_swap_storm(seed: u64, r: &mut Rng, prop: &str, tier: &str) -> Valu
         "knobs": knobs, "procs": procs, "users": users_json(), "steps": steps, "oracles": oracles,
         "config": {"pollKeyStatusIntervalInSeconds": 1}, "settle_ms": 3000, "faulty": false
     })
+}
+
+/// key negotiation fails when a new document arrives: the host withdraws its latch (so the agent has to acquire and
+/// attest again) and answers the next acquire / attest requests with errors - a few of them (the agent gets through a
+/// poll or two later) or many (it does not get through while the following requests are served). Returns whether the
+/// faults are meant to outlast the next batch of requests.
+pub fn gen_key_negotiation_faults(r: &mut Rng, steps: &mut Vec<Value>) -> bool {
+    let persistent = r.chance(1, 2);
+    steps.push(json!({"t": "host_latch", "mode": "none"}));
+    let k = if persistent { 60 } else { 1 + r.below(3) };
+    let kind = *r.pick(&["acquire", "attest", "acquire"]);
+    for _ in 0..k {
+        let f = match r.below(3) {
+            0 => json!({"f": "status", "status": *r.pick(&[500u64, 503])}),
+            1 => json!({"f": "reset_before"}),
+            _ => json!({"f": "reset_after"}),
+        };
+        steps.push(json!({"t": "host_fault", "kind": kind, "fault": f}));
+    }
+    persistent
 }
 
 /// faults placed right before a batch of client connections: the next requests of local clients that reach a host
@@ -961,8 +994,17 @@ fn gen_c11(seed: u64, r: &mut Rng, procs: Value, tier: &str) -> Value {
             let da = *r.pick(&["allow", "deny", "deny"]);
             rules.insert(ep.to_string(), gen_item(r, &format!("{}-{}", ep, ph), &procs, &o, mode, da));
         }
+        let key_faults = r.chance(1, 4);
+        let mut key_faults_persistent = false;
+        if key_faults {
+            key_faults_persistent = gen_key_negotiation_faults(r, &mut steps);
+        }
         steps.push(json!({"t": "doc", "doc": doc_v2(true, Some(Value::Object(rules)))}));
         steps.push(json!({"t": "wait_polls", "n": 2, "max_s": 200}));
+        if key_faults && !key_faults_persistent {
+            steps.push(json!({"t": "drain_faults", "max_s": 120}));
+            steps.push(json!({"t": "wait_polls", "n": 1, "max_s": 200}));
+        }
         let mut conns = Vec::new();
         for _ in 0..1 + r.below(4) {
             let dst = *r.pick(&["imds", "imds", "wire", "ga"]);
@@ -1003,6 +1045,9 @@ fn gen_c11(seed: u64, r: &mut Rng, procs: Value, tier: &str) -> Value {
         steps.push(json!({"t": "clients", "conns": conns}));
         if upstream_faults {
             steps.push(json!({"t": "clear_faults"}));
+        }
+        if key_faults_persistent {
+            steps.push(json!({"t": "clear_faults", "all": true}));
         }
     }
     steps.push(json!({"t": "sleep", "ms": 125_000}));
